@@ -12,7 +12,7 @@ Open Scope list_scope.
     for in the model: either it is a [Panic] branch, or it is unreachable on the
     property's domain for the reason given. *)
 Definition model_panic_sites : list (str * nat) :=
-  [ (lit "Resolved.validateDefaults/assert"%lit, 1%nat);   (* nil schema: excluded by checkStructure (Structure.v) *)
+  [ (lit "Resolved.validateDefaults/assert"%lit, 1%nat);   (* nil schema: excluded by checkStructure (heap/Clone.v [check]) *)
     (lit "Schema.checkStructure/assert"%lit, 1%nat);        (* fresh infos map: holds at its only call site *)
     (lit "assert/panic"%lit, 1%nat);                        (* the assert helper itself *)
     (lit "equalValue/panic"%lit, 2%nat);                    (* func / unsupported kinds: outside JSON-shaped instances *)
